@@ -1649,7 +1649,9 @@ def _reduce_blockwise(
     )
 
     if _is_arg_reduction(agg):
-        results["intermediates"][0] = np.unravel_index(results["intermediates"][0], array.shape)[-1]
+        # the flat indices are float when the result dtype was promoted to hold a NaN fill_value
+        flat_index = results["intermediates"][0].astype(np.intp, copy=False)
+        results["intermediates"][0] = np.unravel_index(flat_index, array.shape)[-1]
 
     result = _finalize_results(results, agg, axis, expected_groups, reindex=reindex)
     return result
